@@ -93,7 +93,10 @@ def predicate(case, out):
     nx, ny = case["shape"]
     o = np.asarray(out["out"])
     b = out["brush"]
-    for val, name in ((1, "solid"), (0, "void")):
+    sym = all(b[a][d] == b[len(b) - 1 - a][len(b) - 1 - d] for a in range(len(b)) for d in range(len(b)))
+    # the property quantifies over circular (centrally symmetric) brushes; for the hand-made asymmetric brush of the thorough tier the void
+    # region is a union of footprints of the point-reflected brush, so only the solid half (and model == implementation) is checked there
+    for val, name in (((1, "solid"), (0, "void")) if sym else ((1, "solid"),)):
         cov = np.zeros((nx, ny), dtype=bool)
         # every placement whose in-domain part is non-empty counts (the property speaks of "brush footprints whose in-domain part lies
         # entirely within that region"; the centre itself may lie outside the design - needed for brushes that are not centrally symmetric)
